@@ -73,7 +73,22 @@ def step_out_family():
     return out
 
 
-def stale_family(rng, name, eof=False, qkinds=None):
+def ctx_continue_family():
+    """a rule `R > C` whose accepting state accepts only under the context, and a longer rule that runs on through
+    characters the context allows and then needs one more: the scan goes on after the context held, fails in a state that
+    does not accept, and must come back to the match saved under the context"""
+    out = []
+    k = 0
+    for R_ in (ch('a'), plus(ch('a')), cs(('a', 'c'))):
+        for C_, through in ((ch('b'), ch('b')), (cs(('b', 'd')), ch('c')), (ANY, ch('b')), (alt(ch('b'), EOFR), ch('b'))):
+            for tail in (ch('x'), st('xy')):
+                rules = [Rule(R_, 'tok', ctx=C_), Rule(cat(R_, through, tail), 'tok'), Rule(through, 'tok'), Rule(ch(' '), 'skip')]
+                out.append(Def('cc%d' % k, [('Init', rules)], tags=['ctxcont', 'C04']))
+                k += 1
+    return out
+
+
+def stale_family(rng, name, eof=False, qkinds=None, eof_kind=None):
     """shapes around the saved-match life cycle: a shorter candidate P is saved, a longer rule Q ends
     in a dead-end accept whose action continues / skips / switches / returns, and a later scan fails
     in a state that rewinds although nothing was accepted on the way (a join of an accepting and a
@@ -101,7 +116,7 @@ def stale_family(rng, name, eof=False, qkinds=None):
         tail.append(Rule(ch(m), 'skip'))
     eof_rules = []
     if eof:
-        eof_rules = [Rule(EOFR, rng.choice(['tok', 'ret']))] if rng.random() < 0.7 else [Rule(cat(ch(x), EOFR), 'tok')]
+        eof_rules = [Rule(EOFR, eof_kind or rng.choice(['tok', 'ret']))] if (rng.random() < 0.7 or eof_kind) else [Rule(cat(ch(x), EOFR), 'tok')]
     if two_sets:
         init = [P, Q] + ([] if qkind in ('sw', 'swret') else tail) + eof_rules
         rng.shuffle(init)
@@ -341,6 +356,9 @@ def select(prop, thorough, rng):
         kinds = ['tok', 'ret', 'skip', 'sw', 'sw', 'swret', 'swret', 'cont']
         defs += [F.rand_def(rng, 'rs%d' % j, nsets=rng.choice([2, 3, 3, 4]), kinds=kinds, maxrules=3, depth=1, tags=['C03'], empty_p=0.35) for j in range(nrand)]
         defs += [dyn_def(rng, 'dy%d' % j) for j in range(nrand // 3)]
+        # a user error is not a failure of the lexer: the rule set stays (and a switch made before the Err holds)
+        kf = ['tok', 'ret', 'sw', 'swret', 'ferr', 'ferr', 'fok', 'fcont']
+        defs += [F.rand_def(rng, 'rf%d' % j, nsets=rng.choice([2, 3]), kinds=kf, maxrules=3, depth=1, tags=['C03']) for j in range(nrand // 3)]
         es = empty_set_family(rng)
         defs += es if thorough else es[:4]
         ll = local_let_family(rng)
@@ -352,6 +370,8 @@ def select(prop, thorough, rng):
         defs += [ctx_priority_family(rng, 'cp%d' % j) for j in range(nrand // 2)]
         ll = local_let_family(rng)
         defs += ll if thorough else ll[:4]
+        cc = ctx_continue_family()
+        defs += cc if thorough else cc[1::3]
     elif prop == 'C05':
         defs = pick('C05')
         defs += [F.rand_def(rng, 'eo%d' % j, nsets=rng.choice([1, 2, 2]), eof_p=0.45, kinds=['tok', 'ret', 'skip', 'cont', 'sw', 'swret'], maxrules=4, depth=1, tags=['C05']) for j in range(nrand + nrand // 2)]
@@ -360,6 +380,9 @@ def select(prop, thorough, rng):
         defs = pick('C06', 'rewind')
         defs += [loc_def(rng, 'lo%d' % j, text=(j % 2 == 0)) for j in range(nrand)]
         defs += [stale_family(rng, 'st%d' % j) for j in range(nrand // 2)]
+        # spans after a user error: the lexeme of a fallible rule that returned Err must not overlap the next one
+        defs += [F.rand_def(rng, 'lf%d' % j, nsets=1, kinds=['fok', 'ferr', 'ferr', 'tok', 'skip'], maxrules=4, depth=2, tags=['C06']) for j in range(nrand // 3)]
+        defs += [fdyn_def(rng, 'ld%d' % j, logging=True) for j in range(nrand // 4)]
     elif prop == 'C07':
         defs = pick('C07', 'C01', 'C04')
         defs += [F.rand_def(rng, 'fe%d' % j, nsets=rng.choice([1, 2]), ctx_p=0.15, kinds=['fok', 'ferr', 'ferr', 'fcont', 'tok', 'skip', 'fok'], maxrules=4, depth=2, tags=['C07']) for j in range(nrand)]
@@ -381,11 +404,17 @@ def select(prop, thorough, rng):
         defs += [dyn_def(rng, 'dp%d' % j) for j in range(nrand // 3)]
         defs += [stale_family(rng, 'st%d' % j) for j in range(nrand // 2)]
         defs += [loc_def(rng, 'lt%d' % j, text=True) for j in range(nrand // 3)]
+        cc = ctx_continue_family()
+        defs += cc if thorough else cc[::3]
+        defs += [F.rand_def(rng, 'px%d' % j, nsets=1, ctx_p=0.6, eof_p=0.05, kinds=['tok', 'tok', 'ret', 'skip', 'cont'], maxrules=4, depth=1, tags=['C09']) for j in range(nrand // 3)]
     elif prop == 'C10':
         defs = pick('C10')
         defs += [dyn_def(rng, 'da%d' % j) for j in range(nrand)]
         defs += [F.rand_def(rng, 'ak%d' % j, kinds=['ret', 'cont', 'rcont', 'skip', 'tok', 'sw', 'swret'], ctx_p=0.1, eof_p=0.1, tags=['C10']) for j in range(nrand // 2)]
         defs += [stale_family(rng, 'st%d' % j) for j in range(nrand // 2 + 3)]
+        # end of input: a failure through backtrack() on the last character with a logging `$` rule in Init (an action
+        # must not run for a match that was never selected, also not after the stream has ended)
+        defs += [stale_family(rng, 'se%d' % j, eof=True, eof_kind='ret') for j in range(nrand // 3 + 2)]
         defs += [fdyn_def(rng, 'fa%d' % j, logging=True) for j in range(nrand // 3)]
         sg = sugar_family(rng)
         defs += sg if thorough else sg[:12]
